@@ -90,6 +90,7 @@ def kind_sites(fb, rep, rule, families):
 def run(fb, rep, tier):
     _run(fb, rep, tier)
     sense_splits(fb, rep)
+    pricing_domains(fb, rep)
 
 
 def _run(fb, rep, tier):
@@ -209,3 +210,72 @@ def sense_splits(fb, rep):
                       'both arms of the split on the objective sense (%s) are `%s`: the sense is ignored, so for one of the two senses the value has the wrong sign' % (c[:50], render(a)[:60]))
     if k < 20:
         raise AnalysisBroken('R01.5: only %d splits on the objective sense found' % k)
+
+
+SOLVER_VECTOR_DOMAIN = {
+    # indexed 0 .. dim()-1 : the basis positions / the co-vectors
+    'coTest': 'dim', 'fTest': 'dim', 'coId': 'dim', 'fVec': 'dim', 'coPvec': 'dim', 'isInfeasible': 'dim', 'coWeights': 'dim',
+    # indexed 0 .. coDim()-1 : the vectors
+    'test': 'coDim', 'id': 'coDim', 'pVec': 'coDim', 'isInfeasibleCo': 'coDim', 'weights': 'coDim',
+}
+
+
+def pricing_domains(fb, rep):
+    """R01.6: completeness of pricing ("every LP that has a finite optimum is solved to OPTIMAL") needs every candidate to be looked at.
+    In the pricers and ratio testers a loop over 0 .. thesolver->dim()-1 may subscript only the solver vectors of that dimension
+    (coTest, fTest, coId, ...), a loop over coDim() only test, id, pVec, ... (table confirmed against the declarations in spxsolver.h);
+    local pointers / references are resolved to the accessor they were initialised from."""
+    rep.rule('R01.6', 'pricers and ratio testers subscript each solver vector inside a loop over that vector\'s own dimension (dim / coDim)', floor=20)
+    k = 0
+    for f in sorted(fb.funcs.values(), key=lambda g: (g.name, g.sig)):
+        if not re.match(r'^soplex::SPx\w+(PR|RT)<double>::', f.name) or not f.nodes:
+            continue
+
+        def accessor(e, depth=0):
+            e = strip(e)
+            if e is None or depth > 3:
+                return None
+            if e.k == 'CXXMemberCallExpr' and e.short in SOLVER_VECTOR_DOMAIN and e.obj() is not None and re.search(r'thesolver|solver\(\)', render(e.obj())):
+                return e.short
+            if e.k == 'MemberExpr' and e.short in SOLVER_VECTOR_DOMAIN and re.search(r'thesolver|solver\(\)', render(e)):
+                return e.short
+            if e.k == 'CXXMemberCallExpr' and e.short in ('get_const_ptr', 'get_ptr') and e.obj() is not None:
+                return accessor(e.obj(), depth + 1)
+            if e.k == 'DeclRefExpr' and e.dk == 'local':
+                d = [x for x in f.nodes if x.k == 'VarDecl' and x.u == e.u and x.c]
+                return accessor(d[0].kids[0], depth + 1) if d else None
+            return None
+        for lp in f.nodes:
+            if lp.k != 'ForStmt' or lp.kid('cond') is None or lp.kid('body') is None:
+                continue
+            init = render(lp.kid('init')) if lp.kid('init') is not None else ''
+            cond = render(lp.kid('cond'))
+            m = re.search(r'(?:thesolver|solver\(\))->(dim|coDim)\(\)', init + ' ' + cond)
+            if not m:
+                continue
+            dom = m.group(1)
+            iv = None
+            for x in (lp.kid('init').walk() if lp.kid('init') is not None else []):
+                if x.k == 'VarDecl':
+                    iv = x.n
+            if iv is None:
+                mm = re.match(r'^\(?(\w+) =', init)
+                iv = mm.group(1) if mm else None
+            if iv is None:
+                continue
+            for x in lp.kid('body').walk():
+                name = None
+                if x.k in ('CXXOperatorCallExpr', 'ArraySubscriptExpr'):
+                    a = x.args() if x.k == 'CXXOperatorCallExpr' else x.kids
+                    if len(a) >= 2 and render(strip(a[1])) == iv:
+                        name = accessor(a[0])
+                elif x.k == 'CXXMemberCallExpr' and x.short in ('id', 'coId') and x.args() and render(strip(x.args()[0])) == iv and x.obj() is not None and re.search(r'thesolver|solver\(\)', render(x.obj())):
+                    name = x.short
+                if name is None:
+                    continue
+                k += 1
+                want = SOLVER_VECTOR_DOMAIN[name]
+                rep.check(want == dom, 'R01.6', '%s|loop over %s|%s[%s]@%d' % (f.name.replace('soplex::', '')[:40], dom, name, iv, x.l), '%s:%d' % (f.file, x.l), '%s is indexed over %s()' % (name, want),
+                          'the loop runs over 0..thesolver->%s()-1 but subscripts %s, which has %s() entries: candidates beyond the smaller dimension are never priced (or the vector is read out of range)' % (dom, name, want))
+    if k < 20:
+        raise AnalysisBroken('R01.6: only %d subscripts of solver vectors in pricer / ratio tester loops found' % k)
